@@ -68,6 +68,15 @@ def gen_case(seed, tier='quick', index=1):
         rng, sheets=rng.choice([2, 3]) if half else None,
         userfuncs=rng.random() < 0.4)
     add_env_cells(rng, world)
+    reenter = None
+    fcells = [a for a in world['order'] if world['level'][a] > 0
+              and not a.startswith('Env!')]
+    if fcells and rng.random() < 0.12:
+        # one formula suspends itself (before it reads its operands) while
+        # the caller evaluates another cell through the SAME evaluator
+        a = rng.choice(fcells)
+        world['cells'][a] = '=IF(PAUSE(TRUE),' + world['cells'][a][1:] + ',0)'
+        reenter = {'at': a, 'other': rng.choice(world['order'])}
     if half and not world['stale']:
         for a in world['order']:
             if world['level'][a] > 0 and rng.random() < 0.6:
@@ -144,6 +153,7 @@ def gen_case(seed, tier='quick', index=1):
              'fail_on': rng.choice([1, 2, 4]) if faulty else None,
              'max_empty': rng.choice([100, 100, 1, 3]),
              'decoy': rng.random() < 0.25,
+             'reenter': reenter,
              # how the models came to be (the statement says "a model")
              'provenance': rng.choice(['compiled'] * 6 + ['extracted'] * 2 +
                                       ['restored', 'restored+extracted'])}
@@ -173,6 +183,53 @@ def add_env_cells(rng, world):
     for pool, n in ((STRESSORS, rng.randint(1, 2)),
                     (OBSERVERS, rng.randint(2, 3))):
         for f in rng.sample(pool, n):
+            a = f'Env!A{k}'
+            k += 1
+            world['cells'][a] = f
+            world['deps'][a] = []
+            world['level'][a] = 1
+            world['order'].append(a)
+    if rng.random() < 0.3:
+        # a column mixing booleans, texts that look like booleans and
+        # numbers, counted with criteria that differ only in type
+        for r, v in enumerate([True, 'TRUE', 1, 'true', False, '1']):
+            a = f'Env!H{r + 1}'
+            world['cells'][a] = v
+            world['deps'][a] = []
+            world['level'][a] = 0
+            world['order'].append(a)
+        for f in rng.sample(['=COUNTIF(H1:H6,TRUE)', '=COUNTIF(H1:H6,"true")',
+                             '=COUNTIF(H1:H6,1)', '=COUNTIF(H1:H6,"1")',
+                             '=COUNTIF(H1:H6,FALSE)',
+                             '=COUNTIF(H1:H6,"FALSE")'], rng.randint(2, 4)):
+            a = f'Env!A{k}'
+            k += 1
+            world['cells'][a] = f
+            world['deps'][a] = [f'Env!H{r + 1}' for r in range(6)]
+            world['level'][a] = 1
+            world['order'].append(a)
+    if rng.random() < 0.35:
+        # cash-flow tables with iterative solvers on top (module-level state
+        # in a numeric routine would make their results order dependent)
+        import datetime as _dt
+        flows = [[-100, 30, 40, 50], [-100, 230, -132, 5],
+                 [-1000, 300, 400, 500]]
+        fml = []
+        for t, fl in enumerate(rng.sample(flows, 2)):
+            vcol, dcol = ('C', 'D') if t == 0 else ('F', 'G')
+            for r, v in enumerate(fl):
+                for col_, val in ((vcol, v), (dcol, worlds.enc(
+                        _dt.datetime(2020 + r // 2, 1 + 6 * (r % 2), 1)))):
+                    a = f'Env!{col_}{r + 1}'
+                    world['cells'][a] = val
+                    world['deps'][a] = []
+                    world['level'][a] = 0
+                    world['order'].append(a)
+            n = len(fl)
+            fml += [f'=XIRR({vcol}1:{vcol}{n},{dcol}1:{dcol}{n})',
+                    f'=IRR({vcol}1:{vcol}{n})',
+                    f'=XNPV(0.1,{vcol}1:{vcol}{n},{dcol}1:{dcol}{n})']
+        for f in rng.sample(fml, rng.randint(2, 4)):
             a = f'Env!A{k}'
             k += 1
             world['cells'][a] = f
@@ -400,6 +457,12 @@ def run_sched(case, fs):
                 at = fault.get('step') or max(1, int(steps * fault['frac']))
             st = Stepper(interrupt_at=at, max_steps=SAFETY_STEPS)
             fl0 = uf.fired
+            re = knobs.get('reenter')
+            nested = []
+            if re and kind == 'uf' and at is None:
+                def hook(ev=ev, other=re['other']):
+                    nested.append(outcome_of(ev.evaluate, other))
+                uf.on_pause = hook
             if op.get('thread'):
                 out = call_in_thread(st, ev.evaluate, target)
                 bump('probe:evaluated_from_another_thread')
@@ -407,6 +470,9 @@ def run_sched(case, fs):
                 with st:
                     out = outcome_of(ev.evaluate, target)
             bump('sim_steps', st.steps)
+            uf.on_pause = None
+            if nested:
+                bump('probe:reentrant_evaluation_same_evaluator')
             fired = None
             if st.fired == 'interrupt':
                 fired = 'interrupt'
